@@ -6,7 +6,7 @@ SRC = "/tmp/seeds"
 DST = "/verif/seeded"
 matrix = json.load(open(os.path.join(DST, "MATRIX.json")))
 conf = {}
-for f in ("/tmp/confirm.log", "/tmp/confirm2.log", "/tmp/confirm3.log"):
+for f in ("/tmp/confirm.log", "/tmp/confirm2.log", "/tmp/confirm3.log", "/tmp/confirm_final.log", "/tmp/confirm_flaky.log"):
     if os.path.exists(f):
         for line in open(f):
             r = json.loads(line)
@@ -15,6 +15,9 @@ head = subprocess.run(["git", "-C", "/repo", "log", "--format=%h", "-1"], captur
 # seeded changes that stopped being defects because a later fix: commit made the code robust against them
 OBSOLETE = {
     "C11-D": "obsolete since fix a27f549 (F51): the outer query now labels subquery columns with their own names, so the order in which collision suffixes are assigned can no longer leak into the exported names; before that commit the change was confirmed (demo failed, 64 tests passed) and caught by C11 (`c11.subquery_hidden_namesake_filter`, matrix run 2)",
+}
+FLAKY = {
+    "C19-C": "the demo is probabilistic by nature (the change makes build_query depend on the iteration order of a set of fresh UUIDs): on the final tree it failed in 1 of 8 runs (3 of 10 over the session); confirmed on a failing run",
 }
 rows = []
 for key in sorted(matrix):
@@ -49,6 +52,7 @@ for key in sorted(matrix):
         "what_it_breaks": meta.get("what_it_breaks"),
         "needs_to_manifest": meta.get("needs_to_manifest"),
         "files_touched": meta.get("files_touched"),
+        **({"note": FLAKY[key]} if key in FLAKY else {}),
         "origin": "written by an independent sub-agent that saw only the property text and a scratch worktree of /repo (nothing from /verif)"
         + ("; patch re-based by hand onto the current /repo HEAD (the identical one-line change) because a later fix: commit touched adjacent lines" if pf.endswith("ported.diff") else ""),
         "confirmed": {
